@@ -355,8 +355,109 @@ func genTables() string {
 		}
 		fmt.Fprintf(&b, "Definition gen_jcs_literals : list string := [%s].\n", strings.Join(items, "; "))
 	}
+	b.WriteString(genStructTags())
+	// transformer contexts
+	dt := "pkg/versions/1_0/doctransformer/didtransformer"
+	defConst(&b, "gen_did_context", dt, "didContext", true)
+	defConst(&b, "gen_did_resolution_context", dt, "didResolutionContext", true)
+	defPairs(&b, "gen_key_context_map", dt, "defaultKeyContextMap", false)
+	// protected headers the parser allows (map literal local to validateProtectedHeaders)
+	b.WriteString(genLocalMapKeys("gen_allowed_headers", "pkg/versions/1_0/operationparser", "validateProtectedHeaders", "allowedHeaders"))
 	b.WriteString(genLongformProtocol())
 	return b.String()
+}
+
+// genStructTags: the json struct tags of the request models and of jws.JWK:
+// (struct, [(field, json name, omitempty)]) in declaration order.
+func genStructTags() string {
+	var items []string
+	for _, pkg := range []string{"pkg/versions/1_0/model", "pkg/jws"} {
+		p := loadPkg(pkg)
+		var names []string
+		byName := map[string]*ast.StructType{}
+		for _, f := range p.files {
+			for _, d := range f.Decls {
+				gd, ok := d.(*ast.GenDecl)
+				if !ok || gd.Tok != token.TYPE {
+					continue
+				}
+				for _, sp := range gd.Specs {
+					ts := sp.(*ast.TypeSpec)
+					if st, ok := ts.Type.(*ast.StructType); ok {
+						names = append(names, ts.Name.Name)
+						byName[ts.Name.Name] = st
+					}
+				}
+			}
+		}
+		sort.Strings(names)
+		for _, n := range names {
+			var fields []string
+			for _, fl := range byName[n].Fields.List {
+				if fl.Tag == nil || len(fl.Names) == 0 {
+					continue
+				}
+				tag, _ := strconv.Unquote(fl.Tag.Value)
+				i := strings.Index(tag, `json:"`)
+				if i < 0 {
+					continue
+				}
+				js := tag[i+6:]
+				js = js[:strings.Index(js, `"`)]
+				parts := strings.Split(js, ",")
+				omit := "false"
+				for _, o := range parts[1:] {
+					if o == "omitempty" {
+						omit = "true"
+					}
+				}
+				fields = append(fields, fmt.Sprintf("(%s, %s, %s)", coqString(fl.Names[0].Name), coqString(parts[0]), omit))
+			}
+			if len(fields) > 0 {
+				items = append(items, fmt.Sprintf("(%s, [%s])", coqString(n), strings.Join(fields, "; ")))
+			}
+		}
+	}
+	return "Definition gen_struct_tags : list (string * list (string * string * bool)) :=\n  [" + strings.Join(items, ";\n   ") + "].\n"
+}
+
+// genLocalMapKeys: keys of a map composite literal assigned to a local variable of a function.
+func genLocalMapKeys(gname, pkg, fn, varName string) string {
+	var keys []string
+	found := false
+	for _, f := range loadPkg(pkg).files {
+		for _, d := range f.Decls {
+			fd, ok := d.(*ast.FuncDecl)
+			if !ok || fd.Name.Name != fn || fd.Body == nil {
+				continue
+			}
+			ast.Inspect(fd.Body, func(n ast.Node) bool {
+				as, ok := n.(*ast.AssignStmt)
+				if !ok || len(as.Lhs) != 1 || len(as.Rhs) != 1 {
+					return true
+				}
+				if id, ok := as.Lhs[0].(*ast.Ident); !ok || id.Name != varName {
+					return true
+				}
+				cl, ok := as.Rhs[0].(*ast.CompositeLit)
+				if !ok {
+					return true
+				}
+				found = true
+				for _, el := range cl.Elts {
+					if kv, ok := el.(*ast.KeyValueExpr); ok {
+						keys = append(keys, coqLit(evalConst(pkg, kv.Key)))
+					}
+				}
+				return false
+			})
+		}
+	}
+	if !found {
+		return fmt.Sprintf("Definition %s_missing : unit := tt.\n", gname)
+	}
+	sort.Strings(keys)
+	return fmt.Sprintf("Definition %s : list string := [%s].\n", gname, strings.Join(keys, "; "))
 }
 
 // genLongformProtocol evaluates the protocol.Protocol literal returned by GetProtocolConfig.
